@@ -29,6 +29,7 @@ func c02(c *Ctx) {
 	w.controlHeader("C02.frame-header", "C02.byte0-bits", "C02.mask-role")
 	w.keySource("C02.key-source")
 	w.rsv1("C02.rsv1")
+	compressorDeflates(c, "C02.rsv1")
 	w.continuation("C02.continuation")
 	r.Rule("C02.mask-impl", "maskBytes: the raw-pointer word store (the only unsafe store of the package) addresses &b[0]+i with i = 0, W, 2W, ... < (len(b)/W)*W, W = sizeof(uintptr) on the build variant, and stores W bytes; the go/ssa-visible index/slice sites of maskBytes are proved by C07.panic-sites; that word-wise XOR equals byte-wise XOR is not decided")
 	w.maskImpl("C02.mask-impl")
@@ -43,7 +44,8 @@ func c02(c *Ctx) {
 			t.checkSection(fn, "C02.whole-frames", "")
 		}
 	}
-	r.Floor("C02.whole-frames", 4)
+	t.noSharedBeforeLock("C02.whole-frames")
+	r.Floor("C02.whole-frames", 5)
 }
 
 // frameHeader checks every path of flushFrame that reaches write.
